@@ -3,6 +3,8 @@
  *   y,dr,dc,J copy into a (nr+dr)x(nc+dc) matrix pre-filled with junk J = r.c:r.c:...  and continue on the copy
  *   R,ROWS,J  copyrows  (ROWS = a.b.c..., one index per row of the same-size destination)
  *   C,COLS,J  copycols
+ *   r,ROWS,J  copyrows_opt (.., NULL): the destination keeps its junk (the function does not clear it)     k,COLS,J  copycols_opt
+ *             (index lists may hold out-of-range values: the functions return at the first one)
  *   F,IR,IC,r2,c2  copy_filled_matrix into a fresh r2 x c2 matrix (index tables a.b.c...)
  *   D  sparse -> dense -> sparse round trip (fresh destination holding entry (0,0))
  *   e,r empty_row   E,c empty_col   w,r weight_row
@@ -61,6 +63,8 @@ int main(void)
 			case 'y': { of_mod2sparse *r = of_mod2sparse_allocate(of_mod2sparse_rows(cur) + atoi(a[1]), of_mod2sparse_cols(cur) + atoi(a[2])); junk(r, a[3]); of_mod2sparse_copy(cur, r); release(cur); cur = r; break; }
 			case 'R': { of_mod2sparse *r = of_mod2sparse_allocate(of_mod2sparse_rows(cur), of_mod2sparse_cols(cur)); ints(a[1], t1); junk(r, a[2]); of_mod2sparse_copyrows(cur, r, t1); release(cur); cur = r; break; }
 			case 'C': { of_mod2sparse *r = of_mod2sparse_allocate(of_mod2sparse_rows(cur), of_mod2sparse_cols(cur)); ints(a[1], t1); junk(r, a[2]); of_mod2sparse_copycols(cur, r, t1); release(cur); cur = r; break; }
+			case 'r': { of_mod2sparse *r = of_mod2sparse_allocate(of_mod2sparse_rows(cur), of_mod2sparse_cols(cur)); ints(a[1], t1); junk(r, a[2]); of_mod2sparse_copyrows_opt(cur, r, t1, NULL); release(cur); cur = r; break; }
+			case 'k': { of_mod2sparse *r = of_mod2sparse_allocate(of_mod2sparse_rows(cur), of_mod2sparse_cols(cur)); ints(a[1], t1); junk(r, a[2]); of_mod2sparse_copycols_opt(cur, r, t1); release(cur); cur = r; break; }
 			case 'F': { of_mod2sparse *r = of_mod2sparse_allocate(atoi(a[3]), atoi(a[4])); ints(a[1], t1); ints(a[2], t2); of_mod2sparse_copy_filled_matrix(cur, r, t1, t2); release(cur); cur = r; break; }
 			case 'D': { of_mod2dense *d = of_mod2dense_allocate(of_mod2sparse_rows(cur), of_mod2sparse_cols(cur)); of_mod2sparse *r = of_mod2sparse_allocate(of_mod2sparse_rows(cur), of_mod2sparse_cols(cur));
 				of_mod2sparse_insert(r, 0, 0); of_mod2sparse_to_dense(cur, d); of_mod2dense_to_sparse(d, r); of_mod2dense_free(d); release(cur); cur = r; break; }
